@@ -381,26 +381,32 @@ def r5_walker_wiring(ctx):
                 bad.append((u, c, got))
         ok = not bad
     yield Ob('map_walker:walk_tree._is_loop_match a skipped loop is pending-missing iff required and not yet seen', ok, ctx.floc(fn), '' if ok else 'condition changed')
-    # flush: pending errors at the position just matched are kept, the others reported
+    # flush: pending errors at the position just matched are kept, the others reported - decided by constant propagation
+    # on a list of pending entries at three positions, for every current position (and for "no position": report all)
     fn = ctx.func('map_walker', 'walk_tree._flush_mandatory_segs')
-    # (the pending entry may be unpacked into names or indexed: the test compares the `.pos` of its node with cur_pos)
-    t = []
-    for n in ast.walk(fn):
-        if isinstance(n, ast.If) and 'cur_pos' in norm(n.test):
-            pp = sorted({ast.unparse(x) for x in ast.walk(n.test) if isinstance(x, ast.Attribute) and x.attr == 'pos'})
-            if len(pp) == 1:
-                t.append((n, pp[0]))
-    ok = False
-    if len(t) == 1:
-        reports = [c for c in A.calls_in(ast.Module(body=t[0][0].body, type_ignores=[])) if A.call_target(c)[1] == 'seg_error']
+    from ..absint import traces as _tr, NotClosedTest as _NCT2
+    gfl = ctx.cfg(fn)
+    pend = tuple((A.Model('node@%d' % p_, pos=p_, id='S%d' % p_), 'seg%d' % i_, str(i_), 'missing %d' % i_, i_, i_, None) for i_, p_ in enumerate((10, 20, 20, 30)))
+    badf = []
+    for cur in (10, 20, 30, 40, None):
+        def key(c):
+            r_, m_ = A.call_target(c)
+            return m_ if r_ == 'errh' and m_ in ('add_seg', 'seg_error') else None
         try:
-            tv = A.abstract(t[0][0].test, {t[0][1]: '__pos'})
-            vals = [bool(A.ev(tv, {'__pos': a, 'cur_pos': 20})) for a in (10, 20, 30)]
-        except A.NotClosed:
-            vals = None
-        # the branch that reports is taken for the other positions only
-        ok = vals == ([True, False, True] if reports else [False, True, False])
-    yield Ob('map_walker:walk_tree._flush_mandatory_segs reports pending errors of other positions only', ok, ctx.floc(fn), '' if ok else 'flush condition changed')
+            res = _tr(gfl, {'self.mandatory_segs_missing': pend, 'cur_pos': cur}, key)
+        except _NCT2 as e_:
+            raise AnalysisError('walk_tree._flush_mandatory_segs cannot be decided: %s' % e_)
+        want_rep = [x for x in pend if x[0].pos != cur]
+        want_left = tuple(x for x in pend if x[0].pos == cur)
+        for tr, e_ in res:
+            reps = [a_[1][0] for a_ in tr if a_[0] == 'seg_error']
+            regs = [a_[1][0] for a_ in tr if a_[0] == 'add_seg']
+            left = dict(e_).get('self.mandatory_segs_missing')
+            if reps != [x[2] for x in want_rep] or regs != [x[0] for x in want_rep] or (left is not None and tuple(left) != want_left) or left is None:
+                badf.append('pending at positions [10, 20, 20, 30], current position %s: reports %s, keeps %s; expected reports for %s, kept %s' % (
+                    cur, reps, [x[0].pos for x in (left or ())], [x[0].pos for x in want_rep], [x[0].pos for x in want_left]))
+    ok = not badf
+    yield Ob('map_walker:walk_tree._flush_mandatory_segs reports pending errors of other positions only', ok, ctx.floc(fn), '' if ok else badf[0])
     # --- limits as the map declares them
     for cls, attr in (('segment_if', 'max_use'), ('loop_if', 'repeat')):
         fn = ctx.func('map_if', cls + '.get_max_repeat')
@@ -714,7 +720,70 @@ def r11_no_state_between_documents(ctx):
         yield o
 
 
+class _MEle(object):
+    _sa_model = True
+
+    def __init__(self, dtype='AN', usage='S', codes=(), kids=None):
+        self.dtype, self.usage, self.valid_codes, self.children = dtype, usage, tuple(codes), tuple(kids or ())
+
+    def is_element(self):
+        return not self.children
+
+    def is_composite(self):
+        return bool(self.children)
+
+    def get_data_type(self):
+        return self.dtype
+
+
+def r14_is_match_semantics(ctx):
+    """segment_if.is_match decided by constant propagation on model map nodes of every shape the matcher distinguishes
+    (first element a required ID, ENT, CTX, first element a composite, HL, anything else), each with and without an
+    inline code list, against segments whose discriminating value is / is not in the list: a segment matches the node of
+    its id unless the node HAS a code list at its discriminating position and the value is not in it - a node without
+    inline codes (codes kept in an external table) matches every segment of its id."""
+    from ..absint import run_function, helper_oracles, NotClosedTest
+    fn = ctx.func('map_if', 'segment_if.is_match')
+    hf = helper_oracles(ctx, 'map_if')
+    bad = []
+    n = 0
+    shapes = []
+    for codes in ((), ('A1', 'B2')):
+        shapes.append(('first element a required ID', 'REF', lambda c=codes: (_MEle('ID', 'R', c), _MEle('AN', 'S'), _MEle('AN', 'S')), '01', codes, True))
+        shapes.append(('first element a situational ID', 'REF', lambda c=codes: (_MEle('ID', 'S', c), _MEle('AN', 'S'), _MEle('AN', 'S')), '01', codes, False))
+        shapes.append(('ENT (second element)', 'ENT', lambda c=codes: (_MEle('N0', 'S'), _MEle('ID', 'R', c), _MEle('AN', 'S')), '02', codes, True))
+        shapes.append(('CTX (first component, AN)', 'CTX', lambda c=codes: (_MEle(kids=(_MEle('AN', 'R', c), _MEle('AN', 'S'))), _MEle('AN', 'S'), _MEle('AN', 'S')), '01-1', codes, True))
+        shapes.append(('first element a composite (first component ID)', 'HI', lambda c=codes: (_MEle(kids=(_MEle('ID', 'R', c), _MEle('AN', 'S'))), _MEle('AN', 'S'), _MEle('AN', 'S')), '01-1', codes, True))
+        shapes.append(('HL (third element)', 'HL', lambda c=codes: (_MEle('AN', 'R'), _MEle('AN', 'S'), _MEle('ID', 'R', c)), '03', codes, True))
+    for label, sid, mk, rd, codes, discr in shapes:
+        for val in ('A1', 'ZZ', None):
+            for seg_id in (sid, 'XYZ'):
+                kids = mk()
+                seg = A.Model('segment', get_seg_id=lambda seg_id=seg_id: seg_id, get_value=lambda r, rd=rd, val=val: val if r == rd else 'other')
+                try:
+                    got = run_function(ctx.cfg(fn), fn, [None, seg], hf, env={'self.id': sid, 'self.children': kids})
+                except (NotClosedTest, A.NotClosed) as e:
+                    raise AnalysisError('segment_if.is_match cannot be decided (%s): %s' % (label, e))
+                n += 1
+                want = seg_id == sid and not (discr and codes and val not in codes)
+                if bool(got) != want and len(bad) < 3:
+                    bad.append('node %s, %s, %s: a %s segment with %s=%r %s' % (sid, label, 'codes %s' % list(codes) if codes else 'no inline codes', seg_id, rd, val,
+                                                                       'matches' if got else 'does not match'))
+    yield Ob('map_if:segment_if.is_match: a segment matches the node of its id unless an inline code list excludes it', not bad, ctx.floc(fn),
+             '' if not bad else bad[0], note='%d combinations' % n)
+
+
+def r13_shared_length_atoms(ctx):
+    """a conformant value must not be reported as too short / too long: the length of a numeric value is measured without
+    sign and point, whatever the numeric type is called (C15.R3, shared)"""
+    from . import c15
+    for o in c15.r3_sources_and_atoms(ctx):
+        yield o
+
+
 RULES = [
+    Rule('C02.R14', 'segment_if.is_match decided by constant propagation over node shapes x code lists x values', r14_is_match_semantics, floor=1),
+    Rule('C02.R13', 'shared with C15.R3: length atoms measure the right string (numeric types without sign and point)', r13_shared_length_atoms, floor=8),
     Rule('C02.R1', 'every index entry is selectable: whitelist, the map\'s own envelope code lists, BHT tuple', r1_selectable, floor=90),
     Rule('C02.R2', 'literal map paths in code resolve in every map they are applied to', r2_literal_paths, floor=22),
     Rule('C02.R3', 'recogniser dispatch covers every data type / format qualifier in the data', r3_dispatch_covers_data, floor=7),
